@@ -24,7 +24,9 @@ func init() {
 			"(10) in handleRequest a response with a secret leaves only across Register success, the tested registerLease flag or the sys/leases/renew prefix; " +
 			"(11) a service token created through auth/token/ is returned only across RegisterAuth success; " +
 			"(12) the persist flag handed to expiration.RegisterAuth is the flag the token was created with (login) or constant true (token creation, wrapping); " +
-			"(13) every request the expiration manager routes to a backend for a lease (revokeEntry, renewEntry, renewAuthEntry) is routed in a context re-scoped by ContextWithNamespace to leaseEntry.namespace.",
+			"(13) every request the expiration manager routes to a backend for a lease (revokeEntry, renewEntry, renewAuthEntry) is routed in a context re-scoped by ContextWithNamespace to leaseEntry.namespace; " +
+			"(10, exits) once the response carries a secret every exit of handleRequest passes the Register attempt or a routed RevokeRequest, except across tabled guard edges (mount / backend / system view vanished, CalculateTTL's impossible failure, KV flag, lease renewal) listed as exceptions with reasons; " +
+			"(14) Router.routeCommon restores into req.Path the path it matched the mount by: the snapshot its deferred reset writes back is read after the slash-adjusted path was stored into req.Path.",
 		NotDecided: "that the backend's revoke handler actually removes the secret; a crash between generation and registration (no code runs); atomicity of the individual storage writes.",
 		Run:        runC06,
 	})
